@@ -214,7 +214,7 @@ def _chunk(jobs):
         opts = {"creation": rng.choice(["ok"] * 8 + ["raise", "noniter"]), "source_fails": rng.random() < 0.3,
                 "gate_source": rng.random() < 0.6, "gate_subscribe": rng.random() < 0.3, "p_gate": rng.choice([0.0, 0.3, 0.7]),
                 "aclose_raises": rng.random() < 0.25}
-        results, exhaustive = explore(case, sd, opts, 40 if tier == "quick" else 300, rng)
+        results, exhaustive = explore(case, sd, opts, 40 if tier == "quick" else 120, rng)
         for sched, r in results:
             meta = {"seed": sd, "query": text, "variables": gqlmini.render_vars(case), "options": opts, "n_events": len(case["events"]),
                     "schedule": [list(a) for a in sched], "exhaustive": exhaustive}
@@ -243,7 +243,7 @@ def run(tier: str, rd):
         ev.add_tlc(f"M: Subscribe.tla NEvents={n} SourceFails={fails}", r)
         if r.invariant_violations or r.rc == 13:
             vd.violation("model-Subscribe", {"events": n, "fails": fails}, r.tail(40), {"clause": "model-Subscribe"})
-    n = 400 if tier == "quick" else 4000
+    n = 400 if tier == "quick" else 2500
     base = seed() * 1000000 + 700000
     recs = []
     for lst in pmap(_chunk, [(s, tier) for s in range(base, base + n)], chunk=10):
@@ -253,13 +253,14 @@ def run(tier: str, rd):
     n_invalid = sum(1 for r in recs if r.get("invalid"))
     recs = [r for r in recs if "pulls" in r]
     hits = {}
-    payload = [{k: v for k, v in r.items() if not k.startswith("_")} for r in recs]
-    if payload:
-        p = common.write_cases(rd, "subs.json", payload)
-        r = run_tlc(rd, "SubscribeV", common.v_cfg(), env={"CASES": str(p)}, timeout=3400, heap="16g")
-        ev.add_tlc(f"V: {len(recs)} recorded subscription runs vs SubscribeV.tla (S1-S6 with Execute.tla per event)", r)
+    for bi in range(0, len(recs), 4000):
+        batch = recs[bi:bi + 4000]
+        payload = [{k: v for k, v in r.items() if not k.startswith("_")} for r in batch]
+        p = common.write_cases(rd, f"subs{bi}.json", payload)
+        r = run_tlc(rd, "SubscribeV", common.v_cfg(), name=f"SubscribeV{bi}", env={"CASES": str(p)}, timeout=3400, heap="16g")
+        ev.add_tlc(f"V: {len(batch)} recorded subscription runs vs SubscribeV.tla (S1-S6 with Execute.tla per event)", r)
         for o in r.json_lines():
-            rec = recs[o["viol"] - 1]
+            rec = batch[o["viol"] - 1]
             hits[o["clause"]] = hits.get(o["clause"], 0) + 1
             vd.violation(o["clause"], rec["_meta"], {"pulls": [p["k"] for p in rec["pulls"]], "hasSingle": rec["hasSingle"]})
     ev.traces += len(recs)
